@@ -410,3 +410,55 @@ pub fn insert_text<S: Src, K: Skel, const SEC: u8, const WHICH: u8>(s: &mut S) -
 /// type collects a backtrace in debug-profile builds through a foreign call
 /// (`_Unwind_Backtrace`) that CBMC cannot execute. No frames are reported.
 pub fn trace_stub(_cb: &mut dyn FnMut(&dyn backtrace::Frame) -> bool) {}
+
+/// builders with a name whose first label has exactly LEN letters (owner when WHERE == 0,
+/// NS target when WHERE == 1): whatever is returned is a well-formed record (labels <= 63),
+/// and equals the RFC 1035 wire form; a label the wire format cannot carry is an error.
+pub fn label_edge<S: Src, const LEN: usize, const WHERE: u8>(s: &mut S) -> Verdict {
+    let ttl = s.u32();
+    // no reallocation while the texts are built (see p_text::from_str_boundary)
+    let mut long: Vec<u8> = Vec::with_capacity(300);
+    let mut i = 0;
+    while i < LEN {
+        long.push(b'k');
+        i += 1;
+    }
+    long.extend_from_slice(b".cd");
+    let short: &[u8] = b"ab.cd";
+    cut_errors(0);
+    let a = [s.u8(), s.u8(), s.u8(), s.u8()];
+    let got = if WHERE == 0 {
+        r#gen::A::build(hdr(&long, ttl, Type::A), Ipv4Addr::new(a[0], a[1], a[2], a[3]))
+    } else {
+        r#gen::NS::build(hdr(short, ttl, Type::NS), long.clone())
+    };
+    match got {
+        Ok(rr) => {
+            vassert!(LEN <= 63, "builder: a label longer than 63 bytes is an error, never a record");
+            let w = &rr.packet;
+            let nlen = LEN + 5; // len byte + label + 2 'c' 'd' 0
+            let fixed = if WHERE == 0 { nlen } else { 7 };
+            vassert!(w.len() == if WHERE == 0 { nlen + 10 + 4 } else { 7 + 10 + nlen }, "builder: exactly the RFC 1035 wire form of the record");
+            let base = if WHERE == 0 { 0 } else { 17 };
+            let mut ok = w[base] as usize == LEN;
+            let mut k = 0;
+            while k < LEN {
+                ok &= w[base + 1 + k] == b'k';
+                k += 1;
+            }
+            ok &= w[base + LEN + 1] == 2 && w[base + LEN + 2] == b'c' && w[base + LEN + 3] == b'd' && w[base + LEN + 4] == 0;
+            vassert!(ok, "builder: exactly the RFC 1035 wire form of the record");
+            let ty = if WHERE == 0 { 1 } else { 2 };
+            let rdlen = if WHERE == 0 { 4 } else { nlen };
+            vassert!(w[fixed] == 0 && w[fixed + 1] == ty && w[fixed + 2] == 0 && w[fixed + 3] == 1
+                && w[fixed + 4] == (ttl >> 24) as u8 && w[fixed + 5] == (ttl >> 16) as u8 && w[fixed + 6] == (ttl >> 8) as u8 && w[fixed + 7] == ttl as u8
+                && w[fixed + 8] as usize == rdlen >> 8 && w[fixed + 9] as usize == rdlen & 0xff, "builder: exactly the RFC 1035 wire form of the record");
+            if WHERE == 0 {
+                vassert!(slices_eq(&w[fixed + 10..], &a), "builder: exactly the RFC 1035 wire form of the record");
+            }
+        }
+        Err(_) => vassert!(LEN > 62, "builder succeeds on valid fields"),
+    }
+    vcover!(s, true, "end");
+    Ok(())
+}
